@@ -819,10 +819,11 @@ def shape_hash(s):
 
 
 def run_family(ctx, check_module, make_scenarios, rule, assumptions=None, classify_known=None, extra_corpus=None,
-               post=None):
+               post=None, extra_defs=None):
     """make_scenarios(ctx, tier, widen=False) -> list of scenarios (ids unique)."""
     static_ok = vlib.static_obligations(ctx)
     defs = {"M": "mismatches", "V": "violations", "NT": "count_nontrivial"}
+    defs.update(extra_defs or {})
     if ctx.replay:
         r = json.load(open(ctx.replay))
         scns = [r["case"]["scenario"]]
@@ -861,7 +862,10 @@ def run_family(ctx, check_module, make_scenarios, rule, assumptions=None, classi
         "distinct_cases": distinct,
     }
     if post:
-        post(ctx, by_id, cov)
+        try:
+            post(ctx, by_id, cov, out)
+        except TypeError:
+            post(ctx, by_id, cov)
     return vlib.decide(ctx, static_ok, by_id, M, V, cov, classify_known=classify_known, widen=widen, shrink=shrink,
                        assumptions=assumptions)
 
